@@ -347,6 +347,11 @@ def install(eng):
     def m_wraps(eng, st, args, kw):
         yield st, Model("wraps-identity", lambda e, s, a, k: iter([(s, a[0])]))
 
+    @reg(functools.total_ordering)
+    def m_total_ordering(eng, st, args, kw):
+        # the class itself: the derived operators (<=, >, >=) are not modelled, using one of them is unsupported
+        yield st, args[0]
+
     # list methods (on heap lists)
     def list_append(eng, st, args, kw):
         self, v = args
